@@ -276,10 +276,13 @@ theorem stageAlias_keys (cd : ClassDesc) (h : Heap) :
   unfold stageAlias
   by_cases ha : cd.alias = true <;> simp [ha]
 
-theorem stageLinker_keys (cd : ClassDesc) (sub : Val) :
-    (stageLinker cd sub).map Prod.fst = if cd.base = .linker then ["submodels", "name", "_LAGS", "_LEADS"] else [] := by
+theorem stageLinker_keys (cd : ClassDesc) (sub : Val) (h : Heap) :
+    (stageLinker cd sub h).2.map Prod.fst =
+      if cd.base = .linker then ["submodels", "name", "_LAGS", "_LEADS"] else [] := by
   unfold stageLinker
-  by_cases hl : cd.base = .linker <;> simp [hl]
+  by_cases hl : cd.base = .linker
+  · cases sub <;> simp [hl]
+  · simp [hl]
 
 theorem construct_keys (cd : ClassDesc) (h : Heap) (span sub : Val) :
     (construct cd h span sub).2.map Prod.fst = ctorKeys cd (modelNames h cd) := by
@@ -294,15 +297,15 @@ theorem modelNames_ext {h0 h : Heap} (wf0 : WF h0) (e : Ext h0 h) {cd : ClassDes
   rw [getObj_classAttr_ext wf0 e ok]
 
 /-- In a linker's fresh `__dict__` the `submodels` entry is the constructor argument. -/
-theorem construct_lookup_submodels (cd : ClassDesc) (h : Heap) (span sub : Val)
-    (hl : cd.base = .linker) : (construct cd h span sub).2.lookup "submodels" = some sub := by
+theorem construct_lookup_submodels (cd : ClassDesc) (h : Heap) (span : Val) (l : Nat)
+    (hl : cd.base = .linker) : (construct cd h span (.ref l)).2.lookup "submodels" = some (.ref l) := by
   unfold construct
   simp only [thread_snd]
   have hA : (stageAlias cd h).2.lookup "submodels" = none := by
     unfold stageAlias
     by_cases ha : cd.alias = true <;> simp [ha, List.lookup]
-  have hL : (stageLinker cd sub).lookup "submodels" = some sub := by
-    simp [stageLinker, hl, List.lookup]
+  have hL : ∀ h', (stageLinker cd (.ref l) h').2.lookup "submodels" = some (.ref l) := by
+    intro h'; simp [stageLinker, hl, List.lookup]
   simp only [List.nil_append, lookup_append, hA, hL]
 
 end Fsic.Heap
